@@ -6,6 +6,7 @@ package dsl
 import (
 	"math/big"
 
+	"github.com/microsoft/yardl/tooling/internal/formatting"
 	"github.com/microsoft/yardl/tooling/internal/validation"
 )
 
@@ -26,6 +27,7 @@ func validateEnums(env *Environment, errorSink *validation.ErrorSink) *Environme
 
 		// verify that the enum symbols and integer values are unique
 		symbols := make(map[string]any)
+		upperSnakeCased := make(map[string]string)
 		symbolsByVal := make(map[string][]string)
 		for _, enumValue := range enum.Values {
 			if !memberNameRegex.MatchString(enumValue.Symbol) {
@@ -37,6 +39,11 @@ func validateEnums(env *Environment, errorSink *validation.ErrorSink) *Environme
 				errorSink.Add(validationError(enum, "in %s '%s', the symbol '%s' is defined more than once", enumKind, enum.Name, enumValue.Symbol))
 			} else {
 				symbols[enumValue.Symbol] = nil
+				// the Python and MATLAB generators use the UPPER_SNAKE_CASE form of the symbol
+				if other, found := upperSnakeCased[formatting.ToUpperSnakeCase(enumValue.Symbol)]; found {
+					errorSink.Add(validationError(enumValue, "in %s '%s', the symbols '%s' and '%s' are not distinct when converted to UPPER_SNAKE_CASE in generated code", enumKind, enum.Name, other, enumValue.Symbol))
+				}
+				upperSnakeCased[formatting.ToUpperSnakeCase(enumValue.Symbol)] = enumValue.Symbol
 			}
 		}
 
